@@ -316,6 +316,9 @@ func (p *parser) parseTypeAssertion(left Node) Node {
 	case ANY_TYPE:
 		p.appendErrorForToken("cannot type assert to type any", tok)
 	}
+	if t == nil {
+		return nil // previous error
+	}
 	if p.assertToken(lexer.RPAREN) {
 		p.advanceWSS() // advance past )
 	}
